@@ -215,7 +215,7 @@ CHECKS = {
         technique='structure-aware mutation fuzzing driven by rapid + exhaustive prefix truncation per constructor + native coverage-guided fuzzing (thorough)',
         rule=('case = (bytes, target: unknown object | named Go type, vector hints). Bytes come from valid encodings built by the C01 generator with 0..3 mutations, from '
               'hand-built containers / gzip_packed objects, or are byte soup. Non-trivial: at least one mutation or hostile construction was applied; distinct by hash of (bytes,target,hints).'),
-        must_hit=['first-use-concurrent', 'mut:nested-vectors', 'mut:vector-inside-vector', 'mut:truncate', 'mut:replace-word', 'mut:replace-constructor-id', 'mut:vector-count', 'mut:length-byte', 'mut:splice', 'mut:append', 'mut:container-counts-sizes',
+        must_hit=['mut:deep-nesting', 'mut:deep-nesting>=20000', 'mut:deep-nesting:gzip_packed', 'first-use-concurrent', 'mut:nested-vectors', 'mut:vector-inside-vector', 'mut:truncate', 'mut:replace-word', 'mut:replace-constructor-id', 'mut:vector-count', 'mut:length-byte', 'mut:splice', 'mut:append', 'mut:container-counts-sizes',
                   'mut:gzip-valid', 'mut:gzip-truncated-stream', 'mut:gzip-garbage', 'mut:gzip-nested', 'mut:byte-soup', 'target:unknown-no-hints', 'target:unknown-with-hints',
                   'target:vector-with-hints', 'target:named-seed-type', 'target:named-other-type', 'seed:mtproto-object', 'seed:int128/256', 'outcome:decoded', 'outcome:refused-with-error'],
         assumptions=['hints are slice types (what generated methods pass)', 'allocation is measured with runtime/metrics /gc/heap/allocs:bytes around the call',
@@ -362,7 +362,7 @@ CHECKS = {
         technique='history generation (rapid) + per-event enumeration against a scripted reference server with a live client per case; state inspection for a stopped loop',
         rule=('case = list of server events with wrapping flags; after each a probe. Non-trivial: at least one event other than pong/ack; distinct by hash of the event list.'),
         must_hit=['event:>=6-connections-closed-in-a-row', 'server-clock-after-2038'] + ['event:' + k for k in ('pong', 'ack', 'new-session', 'bad-msg', 'state-info', 'all-info', 'detailed-info', 'new-detailed-info', 'future-salts', 'result-unknown',
-                  'result-again', 'error-unknown', 'update', 'updates-too-long', 'unknown-ctor', 'truncated', 'empty-body', 'empty-container', 'nested-container', 'raw-soup', 'gzip-damaged', 'close', 'bad-salt-unknown', 'bad-salt-answered', 'rotate')] + ['schema-object:mtproto.tl', 'schema-object:api_latest.tl', 'event-frame-in-two-tcp-segments', 'event:envelope:badlen', 'event:envelope:evenid', 'event:envelope:flip', 'event:envelope:truncate'] +
+                  'result-again', 'error-unknown', 'update', 'updates-too-long', 'unknown-ctor', 'truncated', 'empty-body', 'empty-container', 'nested-container', 'raw-soup', 'gzip-damaged', 'close', 'close-pending', 'bad-salt-unknown', 'bad-salt-answered', 'rotate')] + ['schema-object:mtproto.tl', 'schema-object:api_latest.tl', 'event-frame-in-two-tcp-segments', 'event:envelope:badlen', 'event:envelope:evenid', 'event:envelope:flip', 'event:envelope:truncate'] +
                  ['event-gzip-packed', 'event-in-container', 'handler-called', 'warning-surfaced', 'verdict:ok'],
         assumptions=['"reconnects" is judged by state: the listener keeps accepting, and a client that has not opened a new connection 3 s after a close while its receive loop sits idle counts as not reconnecting (also after the 8th close in a row)',
                      '"close" is an orderly close (FIN); an abortive close (RST) is outside the statement - observed: the client then neither reconnects nor reports anything (noted in DESIGN.md)',
